@@ -196,6 +196,7 @@ def run_package(cargo_libcnb, root, cwd, profile, package_dir=None, extra_env=No
     if package_dir:
         args += ["--package-dir", package_dir]
     env = dict(os.environ)
+    env.update(vp.hostile_env(cargo=True))      # (a home directory whose git ignore files ignore everything, a stale $PWD, ...)
     env.update({"CARGO": shutil.which("cargo"), "CARGO_NET_OFFLINE": "true", "CARGO_TERM_COLOR": "never"})
     mode, tdir = TARGET_OF.get(root, ("default", os.path.join(root, "target")))
     env.pop("CARGO_TARGET_DIR", None)
@@ -204,6 +205,7 @@ def run_package(cargo_libcnb, root, cwd, profile, package_dir=None, extra_env=No
         env["CARGO_TARGET_DIR"] = tdir
     env.pop("RUSTFLAGS", None)
     env.pop("CI", None)
+    env.pop("GITHUB_ACTIONS", None)
     if extra_env:
         env.update(extra_env)
     p = subprocess.run(args, cwd=cwd, env=env, stdout=subprocess.PIPE, stderr=subprocess.PIPE, timeout=600)
